@@ -146,7 +146,8 @@ def check(ctx):
     with sect(ctx, 'reader: parseNestedParens transition table'):
         fp = ctx.func(IMAP, "parseNestedParens")
         q = "twisted.mail.imap4.parseNestedParens"
-        loops = [x for x in ast.walk(fp) if isinstance(x, ast.While)]
+        allw = [x for x in ast.walk(fp) if isinstance(x, ast.While)]
+        loops = [x for x in allw if not any(x is not y and any(z is x for z in ast.walk(y)) for y in allw)]     # outermost loop(s) only
         ctx.need(len(loops) == 1, f"the scanning loop of {q}")
         loop = loops[0]
         params = [a.arg for a in fp.args.args]
@@ -194,10 +195,37 @@ def check(ctx):
             expect("outside: open list", o + b"x", 0, {"i": 1, "q": False, "stack": [[], []], "raised": None})
         for c in (b")", b"]"):
             expect("outside: close list", c + b"x", 0, {"i": 1, "q": False, "stack": [[[]]], "raised": None}, depth=2)
-        for data in (b"a\nb", b"\r\n", b'}\n"(\\', b"x" * 12 + b"\n"):
+        for data in (b"a\nb", b"\r\n", b"\rx", b"\nx", b"\r\nx\r\n", b"\n\n\n", b'}\n"(\\', b"x" * 12 + b"\n"):
             lit = ref_item(data, delim)
             expect("outside: literal framed as the writer frames it", lit + b' "x"', 0, {"i": len(lit), "q": False, "stack": [[(data,)]], "raised": None},
                    why="'{N}' CRLF must be followed by exactly N bytes of data taken by length, never scanned")
+
+    # ---- whole reader on writer outputs (structures without backslashes: those are F42)
+    with sect(ctx, 'whole reader on writer outputs'):
+        q = "twisted.mail.imap4.parseNestedParens ~ collapseNestedLists"
+        rf = dict(funcs)
+        for name in ("splitQuoted", "splitOn", "collapseStrings", "parseNestedParens"):
+            rf[name] = interp(ctx.func(IMAP, name), rf, env0)
+        parse = rf["parseNestedParens"]
+
+        def as_parsed(x):
+            if isinstance(x, (list, tuple)):
+                return [as_parsed(y) for y in x]
+            return str(x).encode("ascii") if isinstance(x, int) else x
+        structures = [
+            [b"a\nb"], [b"\rx", None, 12], [b"\nx"], [b"\r\nx", b"y"], [b"\n\r\n", [b"\r"]], [[b"\n"], b"x y"], [b"", [None, [1, b'q"r']]], [b'a"b'], [],
+            [b"NIL", None], [b"(", b")", b"[x]"], [b"{3}", b"{"], [0, -7, [b"x" * 5 + b"\n" + b"y" * 5]], [[[[b"deep\n"]]]],
+        ]
+        bad = None
+        for st_ in structures:
+            wire = b" ".join(ref_item(x, delim) for x in st_)
+            got, err = _call(parse, wire)
+            if err is not None or got != as_parsed(st_):
+                bad = (st_, wire, got if err is None else err)
+                break
+        ctx.check(bad is None, "roundtrip/writer-output-parses-back", q + " | <structures without backslash>",
+                  bad and f"{bad[0]!r} is serialised as {bad[1]!r} and parsed back as {bad[2]!r} (a literal is '{{N}}' CR LF followed by exactly N bytes, whatever they are)",
+                  detail=f"{len(structures)} structures")
 
     # ---- reader: collapseStrings routes literals around the tokenizer ---------------------------------------------------
     with sect(ctx, 'reader: collapseStrings routes literals around the tokenizer'):
@@ -286,6 +314,9 @@ MUTANTS = [
            "                    contentStack[-1].append(s[i : i + 1])\n                    i += 1\n", expect_rule="reader/paren-transitions"),
     Mutant("literal-offset-short", IMAP, "                    contentStack[-1].append((s[end + 3 : end + 3 + literalSize],))\n                    i = end + 3 + literalSize\n",
            "                    contentStack[-1].append((s[end + 3 : end + 3 + literalSize],))\n                    i = end + 2 + literalSize\n", expect_rule="reader/paren-transitions"),
+    Mutant("literal-skips-every-line-break", IMAP, "                    contentStack[-1].append((s[end + 3 : end + 3 + literalSize],))\n                    i = end + 3 + literalSize\n",
+           "                    begin = end + 1\n                    while s[begin : begin + 1] in (b\"\\r\", b\"\\n\"):\n                        begin += 1\n"
+           "                    contentStack[-1].append((s[begin : begin + literalSize],))\n                    i = begin + literalSize\n", expect_rule="r"),
     Mutant("parens-nest-inside-quotes", IMAP, "            if inQuote:\n                if c == b\"\\\\\":\n", "            if inQuote and c not in b\"()\":\n                if c == b\"\\\\\":\n",
            expect_rule="reader/paren-transitions"),
     Mutant("escaped-quote-keeps-backslash", IMAP, "                word.pop()\n                word.append(qu)\n", "                word.append(qu)\n", expect_rule="reader/undoes-quoting"),
@@ -299,5 +330,8 @@ SILENT = [
            "    for ch in (esc, qu):\n        s = s.replace(ch, esc + ch)\n    return qu + s + qu\n"),
     Silent("needs-literal-reordered", IMAP, "    return cr in s or lf in s or len(s) > 1000\n", "    return len(s) > 1000 or any(x in s for x in (lf, cr))\n"),
     Silent("paren-test-membership", IMAP, '                elif c == b"(" or c == b"[":\n', '                elif c in (b"(", b"["):\n'),
+    Silent("literal-branch-with-inner-loop", IMAP, "                    contentStack[-1].append((s[end + 3 : end + 3 + literalSize],))\n                    i = end + 3 + literalSize\n",
+           "                    begin = end + 1\n                    for _unit in (b\"\\r\", b\"\\n\"):\n                        begin += 1\n"
+           "                    stop = begin + literalSize\n                    contentStack[-1].append((s[begin:stop],))\n                    i = stop\n"),
     Silent("F42-repaired-tokenizer", IMAP, _SQ_OLD, _SQ_FIXED),
 ]
